@@ -20,7 +20,7 @@ Places == {"header", "between-blocks", "after-expressions-header", "inside-expre
            \* a comment (a blank line) after EVERY line of the text: a block is cut into as many segments as it has lines
            "comment-every-line", "blank-every-line", "comment-every-assignment"}
 \* index into the harness' table of comment strings (plain words, unit names, "1/0", "9**9**9", "x = 3", quotes, ...)
-NStrings == 36
+NStrings == 38
 NeedsString(p) == p \in {"header", "between-blocks", "after-expressions-header", "inside-expressions", "trailing", "end-of-file", "two-comments",
                           "after-header-and-inside", "header-and-trailing", "comment-every-line", "comment-every-assignment"}
 
